@@ -875,12 +875,15 @@ ComponentPtr flattenComponent(const ComponentEntityPtr &parent, ComponentPtr &co
         // Take a copy of the imported component which will be used to replace the import defined in this model.
         auto importedComponentCopy = importedComponent->clone();
         importedComponentCopy->setName(component->name());
+
+        // Get list of required units from component's variables and math cn elements.
+        // (Before the importing model's own components are moved below the copy: the
+        // units that those use are units of the importing model, not of the imported one.)
+        std::vector<UnitsPtr> requiredUnits = unitsUsed(clonedImportModel, importedComponentCopy);
+
         for (size_t i = 0; i < component->componentCount(); ++i) {
             importedComponentCopy->addComponent(component->component(i));
         }
-
-        // Get list of required units from component's variables and math cn elements.
-        std::vector<UnitsPtr> requiredUnits = unitsUsed(clonedImportModel, importedComponentCopy);
 
         std::vector<UnitsPtr> uniqueRequiredUnits;
         StringStringMap aliasedUnitsNames;
